@@ -6,6 +6,7 @@
 import os
 import random
 import sys
+import warnings
 
 import numpy as np
 
@@ -117,10 +118,17 @@ def main():
     # real implementation
     real = []
     for name, qs, lab in cases:
+        # the gate is built through the factory function or, every other case, through the (deprecated, still public) factory
+        # class of the same name: the same arguments must give the same gate
+        mk = getattr(gates, name)
+        if len(real) % 2 and hasattr(gates, name + "Factory"):
+            with warnings.catch_warnings():
+                warnings.simplefilter("ignore")
+                mk = getattr(gates, name + "Factory")()
         if name in ("RX", "RZ"):
-            g = getattr(gates, name)(qs[0], 0.3)
+            g = mk(qs[0], 0.3)
         else:
-            g = getattr(gates, name)(*qs)
+            g = mk(*qs)
         try:
             src = PauliLabel(lab)
             pl, c = clifford_gate_conjugation(g, src)
